@@ -21,7 +21,9 @@ gap "the IEEE instance is trusted": the rounding function itself is DEFINED here
 * `fl64 q = rne (q / ulp q) · ulp q`
 
 and `rounding_fl64 : Rounding fl64` is PROVED, together with `fl64_f64exact` (the result IS a finite binary64
-value when `|q| ≤ 2^1023`), `fl64_neg`, `fl64_idem`, and evaluation rules with the well known doubles of `0.1`
+value when `|q| ≤ 2^1023`), `fl64_nearest` (no finite binary64 value is closer to `q` than `fl64 q`),
+`fl64_tie_even` (in a tie the even significand is chosen) — these three characterise round-to-nearest-even, so
+that `fl64` need not be trusted by inspection of its definition —, `fl64_neg`, `fl64_idem`, and evaluation rules with the well known doubles of `0.1`
 and `1/3` and the subnormal tie `2⁻¹⁰⁷⁵ ↦ 0` as non-vacuity examples.
 
 **What `fl64` does not model: overflow.**  The exponent is unbounded above, so `fl64` never returns an
@@ -406,6 +408,137 @@ theorem fl64_f64exact (q : ℚ) (h : |q| ≤ 2 ^ 1023) : F64Exact (fl64 q) := by
 /-- rounding is idempotent -/
 theorem fl64_idem (q : ℚ) (h : |q| ≤ 2 ^ 1023) : fl64 (fl64 q) = fl64 q :=
   fl64_exact _ (fl64_f64exact q h)
+
+/-! ### `fl64 q` is a nearest binary64 value -/
+
+/-- no integer is nearer to `x` than `rne x` -/
+theorem rne_nearest (x : ℚ) (n : ℤ) : |x - rne x| ≤ |x - n| := by
+  by_cases h : n = rne x
+  · rw [h]
+  · have h1 := (rne_spec x).dist_le
+    have h2 : (1 : ℚ) ≤ |((n - rne x : ℤ) : ℚ)| := by
+      rw [← Int.cast_abs]
+      have : 1 ≤ |n - rne x| := Int.one_le_abs (sub_ne_zero.mpr h)
+      exact_mod_cast this
+    have h3 : ((n - rne x : ℤ) : ℚ) = (x - rne x) - (x - n) := by push_cast; ring
+    rw [h3] at h2
+    have h4 := abs_sub (x - rne x) (x - n)
+    linarith
+
+/-- a binary64 value at least as large in magnitude as `2^(expo q)`, or any binary64 value when `q` is in the
+    subnormal range, is a multiple of `ulp q` -/
+theorem f64exact_grid {q y : ℚ} (hy : F64Exact y) (h : expo q = -1022 ∨ (2 : ℚ) ^ expo q ≤ |y|) :
+    ∃ k : ℤ, y = (k : ℚ) * ulp q := by
+  obtain ⟨m, e, hy, hm, he, _⟩ := hy
+  have hexp : expo q - 52 ≤ e := by
+    rcases h with h | h
+    · omega
+    · have hpos : (0 : ℚ) < (2 : ℚ) ^ e := zpow_pos (by norm_num) _
+      have habs : |y| < (2 : ℚ) ^ (53 + e) := by
+        rw [hy, abs_mul, abs_of_pos hpos, zpow_add₀ (by norm_num)]
+        have : |(m : ℚ)| < (2 : ℚ) ^ (53 : ℤ) := by
+          have : ((|m| : ℤ) : ℚ) < ((2 ^ 53 : ℤ) : ℚ) := by exact_mod_cast hm
+          rw [Int.cast_abs] at this
+          norm_num at this ⊢; exact this
+        exact mul_lt_mul_of_pos_right this hpos
+      have := (zpow_lt_zpow_iff_right₀ (a := (2 : ℚ)) (by norm_num)).mp (lt_of_le_of_lt h habs)
+      omega
+  obtain ⟨k, hk⟩ : ∃ k : ℕ, e = (expo q - 52) + k := ⟨(e - (expo q - 52)).toNat, by omega⟩
+  refine ⟨m * 2 ^ k, ?_⟩
+  unfold ulp
+  generalize expo q = E at hk ⊢
+  rw [hy, hk, zpow_add₀ (by norm_num), zpow_natCast]
+  push_cast; ring
+
+/-- the case of `fl64_nearest` that is not a consequence of monotonicity: `q` was rounded down and `y` is above -/
+theorem fl64_nearest_aux {q y : ℚ} (hy : F64Exact y) (h1 : q ≤ y) (h2 : fl64 q < q) :
+    q - fl64 q ≤ y - q := by
+  have hU := ulp_pos q
+  obtain ⟨n, hn⟩ : ∃ n, rne (q / ulp q) = n := ⟨_, rfl⟩
+  have hfl : fl64 q = (n : ℚ) * ulp q := by unfold fl64; rw [hn]
+  have hq : q = q / ulp q * ulp q := (div_mul_cancel₀ _ (ne_of_gt hU)).symm
+  have hnx : (n : ℚ) < q / ulp q := by
+    rw [lt_div_iff₀ hU, ← hfl]; exact h2
+  -- the next grid point is at most `y`
+  have key : ((n + 1 : ℤ) : ℚ) * ulp q ≤ y := by
+    by_cases hg : expo q = -1022 ∨ (2 : ℚ) ^ expo q ≤ |y|
+    · obtain ⟨k, hk⟩ := f64exact_grid hy hg
+      have : (n : ℚ) < (k : ℚ) := by
+        have : q / ulp q ≤ (k : ℚ) := by rw [div_le_iff₀ hU, ← hk]; exact h1
+        linarith
+      have : n + 1 ≤ k := by have : n < k := by exact_mod_cast this
+                             omega
+      rw [hk]
+      exact mul_le_mul_of_nonneg_right (by exact_mod_cast this) (le_of_lt hU)
+    · rw [not_or, not_le] at hg
+      obtain ⟨hg1, hg2⟩ := hg
+      have hlt : -1022 < expo q := lt_of_le_of_ne (expo_ge q) (Ne.symm hg1)
+      have hq0 : q ≠ 0 := by
+        rintro rfl; rw [fl64_zero] at h2; exact lt_irrefl _ h2
+      have hqabs := pow_expo_le_abs hq0 hlt
+      have hyabs := abs_lt.mp hg2
+      rcases lt_or_gt_of_ne hq0 with hneg | hpos
+      · -- `q ≤ -2^(expo q) = -2^52·ulp q`, so `n + 1 ≤ -2^52`
+        rw [abs_of_neg hneg] at hqabs
+        have hp := pow_expo q
+        have hx : q / ulp q ≤ ((-(2 ^ 52) : ℤ) : ℚ) := by
+          rw [div_le_iff₀ hU, Int.cast_neg, neg_mul, ← hp]; linarith
+        have : n + 1 ≤ -(2 ^ 52) := by
+          have : (n : ℚ) < ((-(2 ^ 52) : ℤ) : ℚ) := lt_of_lt_of_le hnx hx
+          have : n < -(2 ^ 52) := by exact_mod_cast this
+          omega
+        have h3 : ((n + 1 : ℤ) : ℚ) * ulp q ≤ ((-(2 ^ 52) : ℤ) : ℚ) * ulp q :=
+          mul_le_mul_of_nonneg_right (by exact_mod_cast this) (le_of_lt hU)
+        rw [Int.cast_neg, neg_mul, ← hp] at h3
+        linarith [hyabs.1]
+      · rw [abs_of_pos hpos] at hqabs
+        linarith
+  have hnear := rne_nearest (q / ulp q) (n + 1)
+  rw [hn, abs_of_pos (by linarith), abs_of_neg (by
+    have : q / ulp q - ((n + 1 : ℤ) : ℚ) ≤ 0 := by
+      have := (rne_spec (q / ulp q)).dist_le
+      rw [hn, abs_of_pos (by linarith)] at this
+      push_cast; linarith
+    rcases eq_or_lt_of_le this with e | l
+    · exfalso
+      -- x = n + 1 is an integer, so rne x = x, contradiction with n < x
+      have : q / ulp q = ((n + 1 : ℤ) : ℚ) := by linarith
+      rw [this, rne_intCast] at hn; omega
+    · exact l)] at hnear
+  have h5 := mul_le_mul_of_nonneg_right hnear (le_of_lt hU)
+  have h6 : (q / ulp q - n) * ulp q = q - fl64 q := by rw [sub_mul, ← hq, hfl]
+  have h7 : -(q / ulp q - ((n + 1 : ℤ) : ℚ)) * ulp q = ((n + 1 : ℤ) : ℚ) * ulp q - q := by
+    rw [neg_mul, sub_mul, ← hq]; ring
+  rw [h6, h7] at h5
+  linarith
+
+/-- **`fl64 q` is a nearest binary64 value**: no finite binary64 value is closer to `q` -/
+theorem fl64_nearest (q y : ℚ) (hy : F64Exact y) : |fl64 q - q| ≤ |y - q| := by
+  rcases le_total q y with h | h
+  · rcases le_or_gt q (fl64 q) with h2 | h2
+    · have := fl64_mono h
+      rw [fl64_exact y hy] at this
+      rw [abs_of_nonneg (by linarith), abs_of_nonneg (by linarith)]; linarith
+    · have := fl64_nearest_aux hy h h2
+      rw [abs_of_neg (by linarith), abs_of_nonneg (by linarith)]; linarith
+  · rcases le_or_gt (fl64 q) q with h2 | h2
+    · have := fl64_mono h
+      rw [fl64_exact y hy] at this
+      rw [abs_of_nonpos (by linarith), abs_of_nonpos (by linarith)]; linarith
+    · have := fl64_nearest_aux (q := -q) (y := -y) (f64exact_neg hy) (by linarith)
+        (by rw [fl64_neg]; linarith)
+      rw [fl64_neg] at this
+      rw [abs_of_pos (by linarith), abs_of_nonpos (by linarith)]; linarith
+
+/-- in a tie (`q` half way between two neighbouring values of its binade) the significand chosen is even -/
+theorem fl64_tie_even (q : ℚ) (h : |fl64 q - q| = ulp q / 2) : Even (rne (q / ulp q)) := by
+  rw [fl64_sub, abs_mul, abs_of_pos (ulp_pos q)] at h
+  have h1 : |(rne (q / ulp q) : ℚ) - q / ulp q| = 1 / 2 := by
+    have := ne_of_gt (ulp_pos q)
+    field_simp at h ⊢; linarith
+  rcases rne_spec (q / ulp q) with h2 | h2
+  · rw [abs_sub_comm] at h1; rw [h1] at h2; exact absurd h2 (lt_irrefl _)
+  · exact h2.2
 
 /-! ### evaluation rules and non-vacuity -/
 
